@@ -17,7 +17,7 @@ VARIABLES k, done
 Traces == JsonDeserialize(IOEnv.TRACE_FILE)
 Has(f, x) == x \in DOMAIN f
 
-IsMut(a) == a.a \in {"MutateField", "MutateConst", "MutateEnumerator", "AddDots"}
+IsMut(a) == a.a \in {"MutateField", "MutateConst", "MutateEnumerator", "AddDots", "MutatePack"}
 ItemOf(a) == IF a.what = "su" THEN <<"su", <<a.item[1], a.item[2]>>>> ELSE <<a.what, a.item>>
 
 \* st = [ev, c, fl, bad]
@@ -41,6 +41,10 @@ RunApi(beh, i, st) ==
                  [] a.a = "MutateEnumerator" ->
                       IF MutateEnumeratorG(ev, a.tag, a.i, a.val)
                       THEN RunApi(beh, i + 1, [st EXCEPT !.ev = MutateEnumeratorE(ev, a.tag, a.i, a.val)])
+                      ELSE [st EXCEPT !.bad = i]
+                 [] a.a = "MutatePack" ->
+                      IF MutatePackG(ev, st.fl, <<a.kind, a.tag>>, a.where)
+                      THEN RunApi(beh, i + 1, [st EXCEPT !.fl = MutatePackE(@, <<a.kind, a.tag>>, a.where)])
                       ELSE [st EXCEPT !.bad = i]
                  [] a.a = "AddDots" ->
                       IF AddDotsG(ev, st.fl, ItemOf(a))
@@ -72,8 +76,8 @@ WrapTo(v, p) ==
 RECURSIVE SumSeq(_, _)
 SumSeq(s, i) == IF i > Len(s) THEN 0 ELSE s[i] + SumSeq(s, i + 1)
 
-SUObsOK(o, ev, c, key) ==
-  LET x == ApiAggObs(ev, c, key)
+SUObsOK(o, ev, c, fl, key) ==
+  LET x == ApiAggObs(ev, c, fl, key)
   IN /\ Has(o, "kind") /\ o.kind = x.kind /\ o.complete = x.complete
      /\ Len(o.fields) = Len(x.fields)
      /\ \A f \in DOMAIN x.fields : /\ o.fields[f][1] = x.fields[f][1]
@@ -93,16 +97,16 @@ Verdict(r) ==
       plain(key) == c.su[key].complete /\ \A f \in DOMAIN c.su[key].fields : c.su[key].fields[f][3] = Unk
       gBad == {key \in DOMAIN c.su : plain(key) /\ Has(r.gcc, KeyStr(key)) /\
                  LET g == r.gcc[KeyStr(key)]
-                 IN ~( /\ g.size = SizeOf(c, key) /\ g.align = AlignOf(c, key)
+                 IN ~( /\ g.size = LSize(c, key, PkW(fl, key)) /\ g.align = LAlign(c, key, PkW(fl, key))
                        /\ Len(g.fields) = Len(c.su[key].fields)
                        /\ \A f \in DOMAIN g.fields : /\ g.fields[f][1] = c.su[key].fields[f][1]
-                                                     /\ g.fields[f][2] = OffsetOf(c, key, f)
+                                                     /\ g.fields[f][2] = LOff(c, key, f, PkW(fl, key))
                                                      /\ g.fields[f][3] = SizeOf(c, c.su[key].fields[f][2]) )}
       \* ---- structs and unions
       suExp(key) == IdealSU(ev, c, fl, key)
       suErr(key) == Has(o.su[KeyStr(key)], "error")
       vSu == {key \in {key \in DOMAIN ev.su : Queryable(key)} :
-                 \/ suExp(key) = "ok" /\ ~DependsOnBroken(ev, c, fl, key) /\ ~SUObsOK(o.su[KeyStr(key)], ev, c, key)
+                 \/ suExp(key) = "ok" /\ ~DependsOnBroken(ev, c, fl, key) /\ ~SUObsOK(o.su[KeyStr(key)], ev, c, fl, key)
                  \/ suExp(key) = "error" /\ ~suErr(key)}
       dSu == {key \in {key \in DOMAIN ev.su : Queryable(key)} : (ModelSU(ev, c, fl, key) = "error") # suErr(key) /\ ~DependsOnBroken(ev, c, fl, key)}
       \* ---- constants
